@@ -62,7 +62,7 @@ func cat(ts ...tmpl) tmpl {
 var dirtyFeatures = []string{
 	"caret", "tab-colinc", "tab-default", "tab-in-block", "amp-in-block",
 	"radix", "english", "charparam", "nonint", "case-word", "upper-v", "nonascii",
-	"cond-bignum", "proc-nil", "v-nil",
+	"cond-bignum", "proc-nil", "v-nil", "plus-param",
 }
 
 // repaired in /repo since the pinned tree (findings with status "fixed: ..."):
@@ -349,7 +349,11 @@ func (g *G) params(slots []pslot) (string, []func(r *rand.Rand) ref.Val) {
 		case k == 1 && (s.hashOK || (mix && s.hashMix)) && s.kind == 'n':
 			parts = append(parts, "#")
 		case s.kind == 'n':
-			parts = append(parts, fmt.Sprint(lo+r.IntN(hi-lo+1)))
+			sign := ""
+			if g.use("plus-param") {
+				sign = "+" // CLHS 22.3: prefix parameters are signed decimal numbers, the sign optional
+			}
+			parts = append(parts, sign+fmt.Sprint(lo+r.IntN(hi-lo+1)))
 		default:
 			parts = append(parts, g.quoted())
 		}
